@@ -156,7 +156,7 @@ Section Transformers.
     Context {D : Type} (mkdiff : str -> str -> D).      (* create_diff(original.splitlines(True), output.readlines()) *)
     Context (dempty : D -> bool).                       (* `not diff` *)
     Definition guard_hits (g : xml_diff_guard) (d : D) : bool :=
-      match g with DiffGuard => dempty d | NoDiffGuard => false end.
+      match g with NoDiffGuard => false | DiffGuard | DiffGuardRereadTry => dempty d end.
     Record xchangeset := { xcs_diff : D; xcs_changes : list xchange }.
     Record xapply_out := { xo_ret : option xchangeset; xo_file : str; xo_failed : bool; xo_unfixed : list (N * N) }.
 
@@ -179,6 +179,26 @@ Section Transformers.
                  xo_failed := false; xo_unfixed := [] |}
           end
       end.
+
+    (** the whole of apply() including the UTF-8 re-read of the original, which comes after `if not changes` and before
+        the diff.  [reread_ok = false]: read_bytes().decode("utf-8") raises (a well-formed document in another encoding;
+        [original] is then just a code for the bytes).  [None] = the exception escapes apply(). *)
+    Definition xml_apply_file (g : xml_diff_guard) (step : pevent -> list event * list xchange) (dry_run : bool)
+               (original : str) (parse : option (list pevent)) (reread_ok : bool) : option xapply_out :=
+      if reread_ok then Some (xml_apply g step dry_run original parse)
+      else match parse with
+           | None => Some (xml_apply g step dry_run original parse)
+           | Some evs =>
+               match snd (run_steps step evs) with
+               | [] => Some (xml_apply g step dry_run original parse)
+               | _ => match g with
+                      | DiffGuardRereadTry =>
+                          Some {| xo_ret := None; xo_file := original; xo_failed := true;
+                                  xo_unfixed := map (fun f => (f, 0%N)) (xall_findings fc_results) |}
+                      | NoDiffGuard | DiffGuard => None
+                      end
+               end
+           end.
   End Apply.
 End Transformers.
 Arguments xcs_diff {D}. Arguments xcs_changes {D}. Arguments xo_ret {D}. Arguments xo_file {D}.
